@@ -677,3 +677,12 @@ func vBreakLineOrphansWidows() (int, []string) {
 //@   modifies anything
 //@   unclaimed call-*-pre* "box and style accessors"
 //@   loop 1 invariant[indent-on-the-first-line-only] len(out) > 0 ==> textIndent == 0
+
+// css-page-3 §5.2: a blank page inserted to reach a forced page side consumes nothing: the page after it starts from
+// the same point of the document (same resume position) and answers the same pending request - break side AND page
+// NAME - that the blank page was created for.
+//@ func (*layoutContext).makePage
+//@   props C12
+//@   modifies anything
+//@   unclaimed call-*-pre* "box, style and page-maker accessors"
+//@   return 1 ensures[blank-page-passes-the-request-on] pageType.Blank ==> result2 == pageMaker[pageNumber-1].InitialNextPage && result1 == previousResumeAt
